@@ -77,6 +77,9 @@ def check_visitor(ctx, lib):
     b, o, okt, tails = R("visit_f64")
     ok = bool(b) and len(okt) >= 1 and not tails and not casts_in(b) and f64_mapping_ok(set().union(*okt), P2)
     row("visit_f64", ok, "Number(from_f64(value)), Null for a non-finite value")
+    if b is not None:
+        from ..serde_tables import f64_decided_by_from_f64
+        row("visit_f64:decided-by-from_f64", f64_decided_by_from_f64(b, o, P2), "every result lies after Number::from_f64(value); only a finiteness test of the value may come first")
     b, o, okt, tails = R("visit_string")
     row("visit_string", b and okt and not tails and all(ms(t, Agg(VAR + "::String", Each(P2))) for t in okt), "String(the owned string)")
     b, o, okt, tails = R("visit_str")
@@ -147,7 +150,7 @@ def check_visitor(ctx, lib):
             ok = ms(a[0], Call(r"BTreeMap::<K, V>::new$", regex=True)) and ms(a[1], ("field", ent, "0")) and ms(a[2], ("field", ent, "1")) and \
                 ms(okt[0], Agg(VAR + "::Object", Each(Call(r"BTreeMap::<K, V>::new$", regex=True)))) and unconditional_add(b, o, nx[0], ins[0])
         row("visit_map", ok, "every entry is inserted under its own key into an ordered map (a later duplicate overwrites); the result is that Object")
-    ctx.floor(rule, n, 11, "visitor rows")
+    ctx.floor(rule, n, 12, "visitor rows")
     d = ctx.fn("<variable::Variable as serde::Deserialize<'de>>::deserialize", rule=rule)
     if d is not None:
         calls = [t for _, t in d.calls()]
